@@ -206,6 +206,10 @@ MATCHERS = {"backtick_content_trailing_odd_backslashes": _m_backslash}
 
 # ------------------------------------------------------------------ python normalisation (PyNorm.tla)
 EXOTIC = ["\u00b5g", "\ufb01eld", "x\u00b2", "\u2460", "\u00aa", "\U0001d431", "\u00e9", "\u53d8\u91cf"]
+# further realisations of the model's class 'quoted name holding a backslash' (MC_PyNorm has a\b, a\\b, x\1, a\+b; variant "template" of
+# PyNorm.tla is the design error they refute): what follows the backslash is, to a regex replacement template, a control character (t),
+# a bad escape (d), a numbered / named group (1, g<0>), an octal code (0) - to the property it is a character of a column name
+BACKSLASHED = ["tab\\there", "dir\\data", "x\\1", "p\\g<0>q", "n\\0", "\\\\srv\\c$", "\\a"]
 
 
 def replay_pynorm(case):
@@ -226,6 +230,10 @@ def replay_pynorm(case):
     for k, ex in enumerate(EXOTIC):
         if qnames and ex not in qnames:
             q = qnames[k % len(qnames)]
+            variants.append((text0.replace("`" + q + "`", "`" + ex + "`"), False))
+    for k, ex in enumerate(BACKSLASHED):
+        if qnames and ex not in qnames:
+            q = qnames[(k + len(text0)) % len(qnames)]
             variants.append((text0.replace("`" + q + "`", "`" + ex + "`"), False))
     bad, n = [], 0
     for text, allforms in variants:
@@ -262,7 +270,17 @@ def pynorm_leg(ctx: Ctx, depth: int):
     v = run_tlc("MC_PyNorm", (base + "INVARIANT ScanOK\n").replace('"fixed"', '"pinned-scan"').replace("Emit = TRUE", "Emit = FALSE"), tag="c15p", timeout=3000)
     if "ScanOK" not in v.violated:
         raise MachineryError("MC_PyNorm: the pinned scanner does not violate ScanOK - no expression of the family tells the scanners apart")
-    ctx.notes["pynorm_design_errors_refuted"] = ["pinned (aliases)", "pinned-scan (string pattern, quote characters inside names)"]
+    # restoring the names through a replacement TEMPLATE: TLC must refute it, and show that it fails exactly on the expressions holding a
+    # quoted name with a backslash in front of a letter, a digit or a backslash (TemplateLaw) - so the family holds such names
+    v = run_tlc("MC_PyNorm", (base + "INVARIANT Faithful\n").replace('"fixed"', '"template"').replace("Emit = TRUE", "Emit = FALSE"), tag="c15p", timeout=3000)
+    if "Faithful" not in v.violated:
+        raise MachineryError("MC_PyNorm: restoring the quoted names through a replacement template does not violate Faithful - no name of the family holds a backslash")
+    v = run_tlc("MC_PyNorm", (base + "INVARIANT TemplateLaw\n").replace('"fixed"', '"template"').replace("Emit = TRUE", "Emit = FALSE"), tag="c15p", timeout=3000)
+    if v.violated:
+        ctx.model_violation(v, "MC_PyNorm TemplateLaw")
+    ctx.add_tlc(v, "python normalisation: restoration through a replacement template is unfaithful exactly on quoted names holding an escape")
+    ctx.notes["pynorm_design_errors_refuted"] = ["pinned (aliases)", "pinned-scan (string pattern, quote characters inside names)",
+                                                 "template (quoted names restored as a regex replacement template: backslashes)"]
     cases = read_emitted(out)
     out.unlink()
     if len(cases) != r.distinct:
